@@ -14,7 +14,9 @@ EXPLANATION = (
     "reference aligns them with -- `defaults` with exactly posonlyargs+args, `kw_defaults` with exactly kwonlyargs -- "
     "decided by a forward, statement-ordered taint on what is zipped with each default list.  R06.2: no `assert` on "
     "the call-parsing path tests a field of a node of the analysed program's AST (such an assert turns an unusual "
-    "but valid call into an internal AssertionError).  The positional/keyword mapping arithmetic and the changer "
+    "but valid call into an internal AssertionError).  R06.3: inside a changer, the call-side mapping drops a component "
+    "only under the same `self.index` selection under which the definition side drops the corresponding component "
+    "(sibling agreement).  The positional/keyword mapping arithmetic and the changer "
     "pipeline are not decided."
 )
 ASSUMPTIONS = ["alignment rule of the language reference as recorded in sa/grammar.py DEFAULT_ALIGNMENT",
@@ -77,3 +79,69 @@ def check(ctx, res) -> None:
                         f"`assert {ast.unparse(a.test)}` tests a field of a node of the analysed program ({ast.unparse(fields[0])}): a valid call shape "
                         "for which it is false (e.g. f(1, **d): keyword.arg is None) makes every signature change raise AssertionError instead of a rope error")
     res.floor("R06.2", "asserts in the signature modules", n2, 2)
+
+    # ---- R06.3 sibling agreement inside a changer: the call-side mapping may drop a component only under the same
+    # index selection under which the definition side drops the corresponding component
+    from ..cfg import CFG
+    from .common import mutated_exprs
+
+    PAIR = {"args_with_defaults": "param_dict", "args_arg": "args_arg", "keywords_arg": "keyword_args"}
+    base = idx.need_class("rope.refactor.change_signature._ArgumentChanger")
+    n3 = 0
+    for q in idx.subclasses(base.qualname):
+        c = idx.classes[q]
+        d, m = c.methods.get("change_definition_info"), c.methods.get("change_argument_mapping")
+        if not d or not m:
+            continue
+
+        def removals(fn):
+            """component -> set of (comparison op on self.index, polarity) guarding its removal"""
+            cfg = CFG(fn.node)
+            pname = param_names_(fn)
+            out = {}
+            for n in cfg.nodes:
+                if n.kind != "stmt" or n.ast is None:
+                    continue
+                comps = set()
+                a = n.ast
+                if isinstance(a, ast.Delete):
+                    for t in a.targets:
+                        for x in ast.walk(t):
+                            if isinstance(x, ast.Attribute) and isinstance(x.value, ast.Name) and x.value.id in pname:
+                                comps.add(x.attr)
+                if isinstance(a, ast.Assign) and len(a.targets) == 1 and isinstance(a.targets[0], ast.Attribute) \
+                        and isinstance(a.targets[0].value, ast.Name) and a.targets[0].value.id in pname:
+                    v = a.value
+                    if (isinstance(v, ast.Constant) and v.value is None) or (isinstance(v, (ast.List, ast.Dict, ast.Tuple)) and not getattr(v, "elts", getattr(v, "keys", []))):
+                        comps.add(a.targets[0].attr)
+                for e in mutated_exprs(a):
+                    if isinstance(e, ast.Attribute) and isinstance(e.value, ast.Name) and e.value.id in pname and \
+                            any(call_name(cc) in ("clear", "pop", "remove") for cc in calls_in(a)):
+                        comps.add(e.attr)
+                if not comps:
+                    continue
+                sel = set()
+                for t, pol in cfg.guards(n.id):
+                    if isinstance(t, ast.Compare) and len(t.ops) == 1 and is_self_attr(t.left, "index"):
+                        sel.add((type(t.ops[0]).__name__, pol))
+                for comp in comps:
+                    out.setdefault(comp, []).append((sel, n))
+            return out
+
+        def param_names_(fn):
+            return [a.arg for a in fn.node.args.args][1:]
+
+        dr, mr = removals(d), removals(m)
+        for dcomp, mcomp in PAIR.items():
+            if mcomp not in mr:
+                continue
+            n3 += 1
+            d_sel = [s_ for s_, _ in dr.get(dcomp, [])]
+            for m_sel, node in mr[mcomp]:
+                pos = {x for x in m_sel if x[1]}
+                ok = bool(d_sel) and any(pos and pos <= {x for x in ds if x[1]} | set() and {x for x in ds if x[1]} <= pos for ds in d_sel)
+                res.add("R06.3", f"{c.name}|{mcomp}", ok, f"{m.unit.rel}:{node.lineno}",
+                        f"call-side removal of {mcomp} is selected by the same index test as the definition-side removal of {dcomp}" if ok else
+                        f"{c.name}.change_argument_mapping drops mapping.{mcomp} under the index selection {sorted(m_sel)} while change_definition_info drops "
+                        f"{dcomp} under {[sorted(x) for x in d_sel]}: call sites lose the values bound to a parameter that the definition keeps")
+    res.floor("R06.3", "changer components removed on the call side", n3, 1)
